@@ -325,12 +325,15 @@ _dispatch_transform_to_utf16(dispatch_data_t data, int32_t byteOrder)
 		} else if (skip > 0) {
 			src += skip;
 			size -= skip;
+			// keep `offset + i` the position of `src` in the whole data
+			offset += skip;
 			skip = 0;
 		}
 
 		for (i = 0; i < size;) {
 			uint32_t wch = 0;
 			uint8_t byte_size = _dispatch_transform_utf8_length(*src);
+			bool leading = (offset + i == 0);
 			size_t next;
 
 			if (byte_size == 0) {
@@ -359,7 +362,7 @@ _dispatch_transform_to_utf16(dispatch_data_t data, int32_t byteOrder)
 			if (os_mul_overflow(size - i, sizeof(uint16_t), &next)) {
 				return (bool)false;
 			}
-			if (wch == 0xfeff && offset + i == 3) {
+			if (wch == 0xfeff && leading) {
 				// skip the BOM if any, as we already inserted one ourselves
 			} else if (wch >= 0xd800 && wch <= 0xdfff) {
 				// Illegal range (surrogate pair)
